@@ -89,7 +89,25 @@ def block_benign():
     return "\n".join(out)
 
 
-blocks = {"benign": block_benign, "fixes": block_fixes, "open": block_open, "evidence": block_evidence, "mutations": block_mutations, "seeded": block_seeded}
+def block_thorough():
+    """thorough_results.txt: lines 'CNN rc=R Ts [CNN thorough] k=v ...' collected from tools/thorough_all.sh runs
+    (later lines for the same check win); a trailing '@<commit>' names the /verif commit the run was made from."""
+    rows = {}
+    for line in open("thorough_results.txt"):
+        m = re.match(r"(C\d\d) rc=(\d+) (\d+)s \[C\d\d thorough\] (.*)", line.strip())
+        if not m:
+            continue
+        kv = dict(x.split("=", 1) for x in m.group(4).split() if "=" in x)
+        rows[m.group(1)] = (m.group(2), m.group(3), kv)
+    out = ["| check | exit | evaluations | distinct non-trivial | states / transitions | unlisted violations | known reproduced | wall s (machine shared with other runs) |", "|---|---|---|---|---|---|---|---|"]
+    for k in sorted(rows):
+        rc, t, kv = rows[k]
+        st = f"{int(kv['states']):,} / {int(kv['transitions']):,}" if "states" in kv else ""
+        out.append(f"| {k} | {rc} | {int(kv.get('evaluations', 0)):,} | {int(kv.get('distinct_nontrivial', 0)):,} | {st} | {kv.get('violations_unlisted')} | {kv.get('known_reproduced')} | {t} |")
+    return "\n".join(out)
+
+
+blocks = {"thorough": block_thorough, "benign": block_benign, "fixes": block_fixes, "open": block_open, "evidence": block_evidence, "mutations": block_mutations, "seeded": block_seeded}
 s = open("DESIGN.md").read()
 for name, fn in blocks.items():
     pat = re.compile(rf"(<!-- BEGIN:{name} -->\n).*?(<!-- END:{name} -->)", re.S)
